@@ -73,6 +73,10 @@ func codecSweep(st *Stats, violate func(sig, what string, rpcs []Rpc), thorough 
 	for i := 0; i < random/10; i++ {
 		y, mon, dd := int64(r.Intn(200)), int64(r.Intn(12)), int64(r.Intn(31))
 		h, m, s := int64(r.Intn(100)), int64(r.Intn(60)), int64(r.Intn(60))
+		if i%3 == 1 {
+			// PostgreSQL prints intervals of more than 99 hours with as many hour digits as it takes (720:00:00 = 30 days)
+			h = int64(100 + r.Intn(100000))
+		}
 		digits := r.Intn(11)
 		frac := ""
 		var fracNs int64
